@@ -82,7 +82,6 @@ func checkC17(c *Ctx) {
 	checkRegistration(c, "C17.R6", "command", 2)
 }
 
-
 func c17R1one(c *Ctx, m *runnerModel, f *Func, x *expander, e *entFn, dispatch *ast.CallExpr, sfx string) {
 	w := c.W
 	info := m.pkg.TypesInfo
